@@ -381,3 +381,6 @@ SUBCHECKS = [
     SubCheck("helpers", _helper_cases, check_helpers, quick=600, thorough=3000,
              rule="non-trivial = 3-D vectors, or binomial with i > k or k >= 23"),
 ]
+
+# coverage-guided tier (thorough only): (sub-check, libFuzzer runs per process, processes)
+FUZZ = [("single", 15000, 3)]
